@@ -104,6 +104,13 @@ def gen_case(rng):
                 if d in big53:
                     return base + rng.choice([0, 1, -1, 2, -2, 3])          # integer keys: exact whatever the magnitude
                 return base + rng.choice([0, 0.25, -0.25, 0.5, -0.5, 1, -1, 1.5, 3, -3])
+            ldt_ = (sp.get("ldtypes") or [None] * nd)[d]
+            if ik == 'nearlist' and ldt_ and ldt_.startswith('uint') and d not in big53 and rng.random() < 0.6:
+                # keys of the axis' own unsigned type (e.g. the labels of another array): differences must not wrap around
+                hi_ = int(np.iinfo(ldt_).max)
+                idx.append(np.array([min(hi_, max(0, int(lab[rng.randrange(len(lab))]) + rng.choice([0, 1, -1, 2, -2, 3]))) for _ in range(rng.randint(1, 3))], dtype=ldt_))
+                kinds.append(ik)
+                continue
             idx.append(near() if ik == 'near' else [near() for _ in range(rng.randint(0, 3))])      # an empty list selects nothing, also with a tolerance
         else:
             idx.append(gen_index(rng, sp["labels"][d], sp["kinds"][d], ik, None))
